@@ -74,7 +74,10 @@ func H_C02(tbl, router, stage int) {
 	// answers it with a redirect to the root path.
 	if stage%10 == 0 && o.invoked >= 0 {
 		root := h.table.services[h.flat[o.invoked].svc].root
-		if !(strings.HasSuffix(root, "/") && q.path == strings.TrimRight(root, "/")) {
+		// also left open: URLs the ServeMux itself rewrites (empty, "." and ".." segments are redirected to the clean URL)
+		muxClean := vAnd(strings.HasPrefix(q.path, "/"), vAnd(!strings.Contains(q.path, "//"), vAnd(!strings.Contains(q.path, "/./"), vAnd(!strings.Contains(q.path, "/../"),
+			vAnd(!strings.HasSuffix(q.path, "/."), !strings.HasSuffix(q.path, "/.."))))))
+		if muxClean && !(strings.HasSuffix(root, "/") && q.path == strings.TrimRight(root, "/")) {
 			o3 := h.runServe(c, q)
 			verifAssert(o3.invoked == o.invoked && o3.nInvoked == 1, "C02: the route that Dispatch runs is not run when the request comes through the container's ServeMux (ServeHTTP)")
 			verifCover("via-servemux")
